@@ -131,21 +131,42 @@ def run_check(prop, tier, seed, replay, t0):
             cov["transitions"] += r["transitions"]
             cov["mc"].append(r)
     # 2. workloads against the real crate
-    if replay:
+    if replay and replay.endswith(".bfs.json"):
+        batches = [("replay", [], {"bfs": json.load(open(replay)), "max_states": 200000})]
+    elif replay:
         scripts = [open(replay).read()]
         batches = [("replay", scripts, {})]
     else:
         batches = plan["workloads"](tier, seed)
     all_viol, all_hits, ntool = [], [], 0
     for bi, (bname, scripts, opts) in enumerate(batches):
-        if not scripts:
+        if not scripts and not opts.get("bfs"):
             continue
         bdir = run.fresh_dir("%s/b%02d_%s" % (work, bi, bname))
         exe_b = exe
         if opts.get("profile", "checked") != "checked":
             exe_b = run.build_harness(opts["profile"])
         t1 = time.time()
-        res = run.run_scripts(exe_b, scripts, bdir, op_timeout=opts.get("op_timeout", 20), max_slots=opts.get("max_slots", 400))
+        if opts.get("bfs"):
+            # breadth-first exploration of the real state graph: the harness writes the trace files itself
+            res, binfo = run.run_bfs(exe_b, opts["bfs"], bdir, opts.get("max_states", 3000), opts.get("edges_per_file", 1500))
+            cov.setdefault("bfs", []).append(binfo)
+            log("[bfs] %s: %s" % (bname, json.dumps(binfo)))
+            mcm = next((m for m in cov["mc"] if m["cfg"] == opts.get("match_cfg")), None)
+            if mcm is not None and binfo.get("closed"):
+                # both systems are deterministic over the same alphabet: edge-wise validation plus equal
+                # state counts is a bisimulation on the explored region
+                binfo["model_states"] = mcm["states"]
+                if mcm["states"] == binfo["bfs_states"]:
+                    log("[bfs] %s: closure reached on both sides with equal state counts: %d byte-states = %d specification states (%s)"
+                        % (bname, binfo["bfs_states"], mcm["states"], mcm["cfg"]))
+                else:
+                    cov["spec_drift"] += 1
+                    log("SPEC-DRIFT %s: %d distinct byte-states of the real files vs %d distinct specification states (%s)"
+                        % (bname, binfo["bfs_states"], mcm["states"], mcm["cfg"]))
+            opts = dict(opts, per_tlc=1)
+        else:
+            res = run.run_scripts(exe_b, scripts, bdir, op_timeout=opts.get("op_timeout", 20), max_slots=opts.get("max_slots", 400))
         t2 = time.time()
         # several histories per TLC start; groups run in parallel
         per = opts.get("per_tlc", 8)
